@@ -11,10 +11,10 @@ use crate::{Pending, judge, lib_json};
 use roto::{Library, Runtime, Val, library};
 use vcore::{Cx, Value, json};
 
-fn named(id: usize, k: K, name: &str, ch: Vec<CItem>) -> CItem {
+pub(crate) fn named(id: usize, k: K, name: &str, ch: Vec<CItem>) -> CItem {
     CItem { id, k, name: name.into(), path: vec![], target: None, ch }
 }
-fn us(id: usize, path: &[&str]) -> CItem {
+pub(crate) fn us(id: usize, path: &[&str]) -> CItem {
     CItem {
         id,
         k: K::Use,
